@@ -89,28 +89,49 @@ Definition is_panic_ret (r : bret) : bool := match r with BRPanic => true | _ =>
 Definition is_err_ret (r : bret) : bool := match r with BRErr => true | _ => false end.
 
 (* "Encoding any packet built through the public constructors and decoding the bytes reproduces version,
-    source id, sequence number, channel offset, shape, payload samples and timestamp counter."
-   A constructor call that panics has not built anything although it was asked to: rejected.  When a
-   call returned an error the caller was told that nothing was built: no claim. *)
-Definition build_check (rets : list bret) (b : res bobs) : bool :=
-  if existsb is_panic_ret rets then false
-  else if existsb is_err_ret rets then true
-  else match b with
-       | Panic => false
-       | Ok b =>
-           match b_bytes b, b_dec b with
-           | Ok bs, ODOk n a =>
-               let p := b_acc b in
-               decode_check bs (b_dec b)
-               && (n =? zlen bs)
-               && (a_version a =? a_version p) && (a_src a =? a_src p) && (a_seq a =? a_seq p)
-               && match a_chan a, a_chan p with
-                  | Ok (_, o1), Ok (_, o2) => o1 =? o2
-                  | _, _ => false
-                  end
-               && opt_eqb zlist_eqb (a_shape a) (a_shape p)
-               && payload_eqb (a_data a) (a_data p)
-               && opt_eqb Z.eqb (a_ts a) (a_ts p)
-           | _, _ => false
-           end
-       end.
+    source id, sequence number, channel offset, shape, payload samples and timestamp counter":
+   one encoding, compared with the fields the encoded object has at that moment *)
+Definition enc_ok (b : res bobs) : bool :=
+  match b with
+  | Panic => false
+  | Ok b =>
+      match b_bytes b, b_dec b with
+      | Ok bs, ODOk n a =>
+          let p := b_acc b in
+          decode_check bs (b_dec b)
+          && (n =? zlen bs)
+          && (a_version a =? a_version p) && (a_src a =? a_src p) && (a_seq a =? a_seq p)
+          && match a_chan a, a_chan p with
+             | Ok (_, o1), Ok (_, o2) => o1 =? o2
+             | _, _ => false
+             end
+          && opt_eqb zlist_eqb (a_shape a) (a_shape p)
+          && payload_eqb (a_data a) (a_data p)
+          && opt_eqb Z.eqb (a_ts a) (a_ts p)
+      | _, _ => false
+      end
+  end.
+
+(* what a step of a history returned: a constructor's error value, or (for an encoding) the two oracle words
+   and the observation *)
+Inductive hres := HRet (r : bret) | HEnc (num denom : Z) (b : res bobs).
+
+(* A history on one object and the objects derived from it.  EVERY encoding — of the object at any point of
+   its life (after further constructor calls, after the caller advanced the time stamp it handed over, a
+   second time in a row) and of a filler packet made from it by MakePretendPacket(seq, n), n <> 0 — must
+   decode to the CURRENT fields of the encoded object.  A constructor call that panics has not built anything
+   although it was asked to: rejected.  Once a call has returned an error the caller was told that nothing
+   was built: no claim from then on.  [clean] = no error so far. *)
+Fixpoint hist_check (clean : bool) (h : list (hop * hres)) : bool :=
+  match h with
+  | [] => true
+  | (HOp _, HRet r) :: rest =>
+      if is_panic_ret r then false else hist_check (clean && negb (is_err_ret r)) rest
+  | (HEncode, HEnc _ _ b) :: rest =>
+      (if clean then enc_ok b else true) && hist_check clean rest
+  | (HFiller _ n, HEnc _ _ b) :: rest =>
+      (if clean && negb (n =? 0) then enc_ok b else true) && hist_check clean rest
+  | _ => false
+  end.
+
+Definition build_check (h : list (hop * hres)) : bool := hist_check true h.
